@@ -7,12 +7,12 @@
 package pfcpiface
 
 import (
-	"os"
 	"context"
 	"encoding/binary"
 	"fmt"
 	"math/rand"
 	"net"
+	"os"
 	"sync"
 	"time"
 
